@@ -1,6 +1,6 @@
 (* C09 — property theorems only. *)
-From Coq Require Import ZArith NArith List Bool Arith.
-From Verif Require Import C09.Model C09.Proofs C09.Token.
+From Coq Require Import ZArith NArith List Bool Arith Lia.
+From Verif Require Import C09.Model C09.Proofs C09.ProofsFuel C09.Token.
 Import ListNotations.
 
 (* for every input string whatsoever and every operator/function table, the parser and the evaluation of the tree it builds
@@ -8,6 +8,21 @@ Import ListNotations.
 Theorem C09_no_input_panics : forall (ops : list oper) (funs : list bytes) (expr : bytes), evaluate ops funs expr <> Panic.
 Proof. exact evaluate_never_panics. Qed.
 Print Assumptions C09_no_input_panics.
+
+(* bounded time: for every input string whatsoever and every operator table whose symbols are not empty (the standard table is
+   one), no loop of the model runs out of its fuel - the scan position strictly increases and stays within the input, every reduction
+   pops an operator, the parenthesis matcher's fuel is enough (more fuel gives the same answer) *)
+Theorem C09_no_input_exhausts_the_fuel : forall (ops : list oper) (funs : list bytes) (expr : bytes),
+  (forall o, In o ops -> sym o <> []) -> evaluate ops funs expr <> OutOfFuel.
+Proof. exact evaluate_never_out_of_fuel. Qed.
+Print Assumptions C09_no_input_exhausts_the_fuel.
+Theorem C09_standard_table_total : forall funs expr, evaluate std_ops funs expr <> OutOfFuel /\ evaluate std_ops funs expr <> Panic.
+Proof. intros funs expr. split; [apply evaluate_never_out_of_fuel; exact std_ops_syms|apply evaluate_never_panics]. Qed.
+Print Assumptions C09_standard_table_total.
+Theorem C09_paren_matcher_fuel_suffices : forall ops, (forall o, In o ops -> sym o <> []) -> forall expr next parens k,
+  match_paren ops (S (length expr) + k) expr next parens = match_paren ops (S (length expr)) expr next parens.
+Proof. intros ops H expr next parens k. apply match_paren_stable; [exact H|lia]. Qed.
+Print Assumptions C09_paren_matcher_fuel_suffices.
 
 (* token level: for every well-formed expression (binary operators with the conventional precedences and left associativity, a
    unary sign or negation before a literal or before a parenthesised expression, redundant parentheses), the two-stack reduction
